@@ -222,7 +222,19 @@ def run(tier, seed):
             return self.x + 1
             yield
 
-    cases = [("async def", coro_fn, True), ("def", plain, False), ("partial(async def)", functools.partial(coro_fn), None), ("callable object", CallObj(), False),
+    # decorated callables: what counts is the callable itself, not what its __wrapped__ chain leads to
+    @functools.wraps(coro_fn)
+    def plain_front_of_async(x):          # a plain function carrying __wrapped__ = an async def
+        return plain(x)
+
+    @functools.wraps(plain)
+    async def async_front_of_plain(x):    # an async def carrying __wrapped__ = a plain function
+        return plain(x)
+
+    cases = [("def wrapping (functools.wraps) an async def", plain_front_of_async, False),
+             ("async def wrapping (functools.wraps) a def", async_front_of_plain, True),
+             ("sync(sync(def))", a.sync(plain), True),
+             ("async def", coro_fn, True), ("def", plain, False), ("partial(async def)", functools.partial(coro_fn), None), ("callable object", CallObj(), False),
              ("lambda returning awaitable object", lambda x: FutureLike(x), False), ("lambda returning coroutine", lambda x: coro_fn(x), False)]
     for name, fn, unchanged in cases:
         s = a.sync(fn)
